@@ -1,17 +1,19 @@
 """C04 - element-wise arithmetic, maps and reductions at every length and operand form (DESIGN 4/C04)."""
 LEVEL = "model_checking"
-RULE = ("P1: for every length 0..NMax (quick 17, thorough 40: every residue of the unroll width several times and the empty case) "
-        "TLC checks that the unrolled-plus-remainder loop shape covers every position exactly once and that a form's output at "
-        "position i depends on l[i], r[i], s only; P2: every (length, operator, form) with exact rational expectation on "
-        "position-dependent integer operands, the length mismatches n+-1, and the same cases on a table of special values "
-        "(+-0, +-inf, NaN, subnormals, huge) where the spec fixes which two operands meet at each position and in which order, "
-        "are replayed through Vector and through Matrix in every factorisation of the length, in every ownership variant "
-        "(owned/borrowed operands, scalar left/right, compound assignment incl. same-size-different-shape rejection), operands "
-        "re-read afterwards; all 29 unary maps, powi(-1..4), powf(.5, 2, 2.5, 3), negation at every length bit-exact against "
-        "the scalar f64 method; reductions (sum, prod, dot, norm, inf_norm, logsumexp, logmeanexp incl. constants up to +-1e4 "
-        "and the shift identity) against exact integer values; P3: random lengths up to 300 with random integer operands "
-        "recorded and validated by TLC (Trace_Elementwise). Case class = (container, form, ownership variant, operator, "
-        "length class n=0 / n<8 / n%8=0 / other, ok or kind of mismatch).")
+RULE = ("P1: for every length 0..NMax (quick 17, thorough 40: every residue of the unroll width several times and the "
+        "empty case) TLC checks that the unrolled-plus-remainder loop shape covers every position exactly once and that"
+        " a form's output at position i depends on l[i], r[i], s only; P2: every (length, operator, form) with exact "
+        "rational expectation on position-dependent integer operands, the length mismatches n+-1, and the same cases on"
+        " a table of special values (+-0, +-inf, NaN, subnormals, huge) where the spec fixes which two operands meet at"
+        " each position and in which order, are replayed through Vector and through Matrix in every factorisation of "
+        "the length, in every ownership variant (owned/borrowed operands, scalar left/right, compound assignment incl. "
+        "same-size-different-shape rejection), operands re-read afterwards; all 29 unary maps, powi(-1..4), powf(.5, 2,"
+        " 2.5, 3), negation at every length bit-exact against the scalar f64 method; reductions (sum, prod, dot, norm, "
+        "inf_norm, logsumexp, logmeanexp incl. constants up to +-1e4 and the shift identity) against exact integer "
+        "values; P3: random lengths up to 300 with random integer operands recorded and validated by TLC "
+        "(Trace_Elementwise). powf additionally with real exponents 3, 5, -2, -1/2, 100, -171, 3e9, 0 (and powi -3, 5, "
+        "17) on operands x * 1.1 + 0.3 that are not small integers. Case class = (container, form, ownership variant, "
+        "operator, length class n=0 / n<8 / n%8=0 / other, ok or kind of mismatch).")
 ASSUMPTIONS = ["on special values the scalar f64 operation/method itself is the oracle the property names (computed by the harness per position); the spec decides position, operand order, length, shape",
                "reductions are judged on the exact sub-domain (small integers); the rounding bound for general reals is not decided"]
 EXHAUSTIVE = True
